@@ -42,6 +42,10 @@ THEOREMS = [
     "PV.C14.C14_decimate_q_multi",
     "PV.C14.C14_decimate_q0_single",
     "PV.C14.C14_decimate_bad_q_noop",
+    # malformed ref_ind: which lists the constructor accepts; on those the total split of the model is the constructor's
+    "PV.C14.C14_refs_valid_iff",
+    "PV.C14.C14_ctor_split_eq",
+    "PV.C14.C14_ctor_split_errors",
     # add_algorithms by NAME (Model/PrepAlgs.lean): the dict name -> object, several objects per call, what every object holds
     "PV.C14.C14_named_base_single",
     "PV.C14.C14_named_base_multi",
@@ -95,7 +99,8 @@ EXTRA_TRUSTED = [
 ASSUMPTIONS = [
     "decimation axis is always 0 (the only value of `axis` the harness passes explicitly)",
     "reference lists are duplicate-free, in range, of the same length as the dataset list, and leave at least one roving channel "
-    "(the constructor fails otherwise)",
+    "(the constructor fails otherwise: modelled by preMultisetupChecked and compared with the real constructor; a ref_ind LONGER "
+    "than the dataset list is accepted by the code, with Nsetup = len(ref_ind) - outside the theorems)",
     "arrays stay longer than scipy's filtfilt pad length (sequences that would go below 40 samples are skipped and counted)",
 ]
 
@@ -731,6 +736,54 @@ def corr_named(ctx, cfg, seq, pool):
             break
 
 
+def correspondence_ctor(ctx):
+    """MultiSetup_PreGER.__init__ on valid and malformed ref_ind (duplicates, out of range, too few / too many lists, empty,
+    every channel a reference) vs `preMultisetupChecked`: exception class, and the split when it returns"""
+    _, PreGER, _, _ = _classes()
+    rng = ctx.rng
+    g = ctx.nprng()
+    for _ in range(ctx.n(40, 400)):
+        k = rng.randint(1, 3)
+        nchs = [rng.randint(2, 5) for _ in range(k)]
+        arrays = [g.standard_normal((60, c)) for c in nchs]
+        refs = [rng.sample(range(c), rng.randint(1, c - 1)) for c in nchs]
+        kind = rng.choice(["valid", "valid", "dup", "range", "short", "long", "empty", "all", "unequal"])
+        i = rng.randrange(k)
+        if kind == "dup":
+            refs[i] = refs[i] + [rng.choice(refs[i])]
+            rng.shuffle(refs[i])
+        elif kind == "range":
+            refs[i] = refs[i] + [nchs[i] + rng.randint(0, 2)]
+            rng.shuffle(refs[i])
+        elif kind == "short":
+            refs = refs[:-1]
+        elif kind == "long":
+            refs = refs + [[0]]
+        elif kind == "empty":
+            refs[i] = []
+        elif kind == "all":
+            refs[i] = rng.sample(range(nchs[i]), nchs[i])
+        m = ctx.model("pre_multisetup_checked", nch=nchs, ref_ind=refs)
+        try:
+            obj = PreGER(fs=100.0, ref_ind=[list(r) for r in refs], datasets=arrays)
+            outcome = "ok"
+        except (TypeError, ValueError, IndexError) as e:
+            obj = None
+            outcome = type(e).__name__
+        bad = []
+        if outcome != m["outcome"]:
+            bad.append(("outcome", outcome, m["outcome"]))
+        elif obj is not None:
+            if len(obj.data) != len(m["splits"]):
+                bad.append(("nsetup", len(obj.data), len(m["splits"])))
+            else:
+                for j, sp in enumerate(m["splits"]):
+                    if not (np.array_equal(obj.data[j]["ref"], arrays[j][:, sp["ref"]].T) and np.array_equal(obj.data[j]["mov"], arrays[j][:, sp["mov"]].T)):
+                        bad.append((f"split[{j}]", "differs", sp))
+        ctx.corr("MultiSetup_PreGER.__init__[ref_ind]", not bad, {"nch": nchs, "ref_ind": refs, "kind": kind}, [(b[0], b[2]) for b in bad], [(b[0], b[1]) for b in bad], (kind, outcome, k))
+        ctx.count(f"ctor_{kind}_{outcome}")
+
+
 def correspondence_named(ctx):
     for cls in ("single", "preger"):
         for _ in range(ctx.n(8, 60)):
@@ -814,6 +867,7 @@ def correspondence(ctx):
             if not np.array_equal(a, f):
                 ctx.notes.append("user array changed during correspondence (see oracle monitors)")
     correspondence_named(ctx)
+    correspondence_ctor(ctx)
 
 
 # ----------------------------------------------------------------------------- oracle (from the statement)
